@@ -13,7 +13,13 @@
                    body of the `select` case: the reassembly loop for ordered batches, or
                    `process` directly; when `processed == len(events)` it announces, calls
                    done() and moves on to the next batch;
-     SStop         Stop(): the workers are gone, buffer.Clear().
+     SQuit         Stop() begins: close(quit) and semaphore.Terminate(); Enqueue is refused from now on,
+                   the workers may still make moves (Go's select between quit and ready work is a
+                   coin flip): SConsume, or
+     SAbort        the inserter's select takes the quit branch: it leaves the batch at the head of its
+                   queue (deferred done(): PAborted) and goes on to the next task;
+     SStop         Stop() ends: the workers are gone, buffer.Clear().  Without a preceding SQuit it
+                   stands for the whole of Stop(): the inserter leaves the batch it is in.
    Every interleaving of Enqueue callers, check results and the inserter is a sequence of these
    steps; the theorems quantify over all step sequences.
 
@@ -72,15 +78,17 @@ Record pst := mkPst {
   warned : bool;               (* the semaphore's warning callback fired *)
   queue : list bstate;         (* batches queued on the inserter, head = current *)
   plog : list pout;            (* newest first *)
-  stopped : bool
+  stopped : bool;
+  poof : bool;                 (* the reassembly loop ran out of fuel with work left (never happens) *)
+  quitf : bool                 (* Stop() has begun: quit is closed, the semaphore terminated *)
 }.
 
 Definition pemit (s : pst) (o : pout) : pst :=
   mkPst (buf s) (pushed s) (tab s) (highest s) (held_n s) (held_s s) (warned s) (queue s)
-        (o :: plog s) (stopped s).
+        (o :: plog s) (stopped s) (poof s) (quitf s).
 Definition set_queue (s : pst) (q : list bstate) : pst :=
   mkPst (buf s) (pushed s) (tab s) (highest s) (held_n s) (held_s s) (warned s) q
-        (plog s) (stopped s).
+        (plog s) (stopped s) (poof s) (quitf s).
 
 Definition batch_num (b : batch) : N := N.of_nat (length (b_events b)).
 Definition batch_size (b : batch) : N := fold_right (fun e a => p_size e + a) 0 (b_events b).
@@ -88,10 +96,10 @@ Definition batch_size (b : batch) : N := fold_right (fun e a => p_size e + a) 0 
 (* DataSemaphore.Release *)
 Definition sem_release (s : pst) (n sz : N) : pst :=
   if (held_n s <? n) || (held_s s <? sz) then
-    mkPst (buf s) (pushed s) (tab s) (highest s) 0 0 true (queue s) (plog s) (stopped s)
+    mkPst (buf s) (pushed s) (tab s) (highest s) 0 0 true (queue s) (plog s) (stopped s) (poof s) (quitf s)
   else
     mkPst (buf s) (pushed s) (tab s) (highest s) (held_n s - n) (held_s s - sz) (warned s)
-          (queue s) (plog s) (stopped s).
+          (queue s) (plog s) (stopped s) (poof s) (quitf s).
 
 Definition lookup_g (s : pst) (g : N) : option pevent := find (fun e => pg e =? g) (tab s).
 Definition size_of_g (s : pst) (g : N) : N :=
@@ -105,7 +113,7 @@ Definition released_cb (s : pst) (g e err : N) : pst :=
   pemit (sem_release s 1 (size_of_g s g)) (PReleased g e err).
 
 Definition set_highest (s : pst) (h : N) : pst :=
-  mkPst (buf s) (pushed s) (tab s) h (held_n s) (held_s s) (warned s) (queue s) (plog s) (stopped s).
+  mkPst (buf s) (pushed s) (tab s) h (held_n s) (held_s s) (warned s) (queue s) (plog s) (stopped s) (poof s) (quitf s).
 
 (* replay one buffer callback (oldest first) as the processor's callbacks see it *)
 Definition apply_out (s : pst) (o : out) : pst :=
@@ -124,14 +132,14 @@ Definition delta (old new : list out) : list out :=
   rev (firstn (length new - length old) new).
 
 Definition set_buf (s : pst) (b : st) (pu : list N) : pst :=
-  mkPst b pu (tab s) (highest s) (held_n s) (held_s s) (warned s) (queue s) (plog s) (stopped s).
+  mkPst b pu (tab s) (highest s) (held_n s) (held_s s) (warned s) (queue s) (plog s) (stopped s) (poof s) (quitf s).
 
 Section Proc.
   Variable fails_check fails_process : list out -> entry -> bool.
   Variable cap_n cap_s : N.        (* eventsSemaphore.maxProcessing *)
   Variable lim_n lim_s : N.        (* cfg.EventsBufferLimit *)
 
-  Definition pst0 (h0 : N) : pst := mkPst st0 [] [] h0 0 0 false [] [] false.
+  Definition pst0 (h0 : N) : pst := mkPst st0 [] [] h0 0 0 false [] [] false false false.
 
   (* Processor.process; returns the parents to request *)
   Definition process (s : pst) (ev : pevent) : pst * list N :=
@@ -154,14 +162,14 @@ Section Proc.
 
   (* SEnq: Acquire (one tryAcquire) + the two worker queues *)
   Definition enqueue (s : pst) (b : batch) : pst :=
-    if stopped s then s else
+    if quitf s || stopped s then s else      (* after Terminate the semaphore refuses *)
     let n := batch_num b in let sz := batch_size b in
     if (cap_n <? held_n s + n) || (cap_s <? held_s s + sz) then pemit s (PBusy (b_id b))
     else
       let bs := mkBs b [] [] (map (fun _ => false) (b_events b)) 0 [] in
       pemit (mkPst (buf s) (pushed s) (tab s ++ b_events b) (highest s)
                    (held_n s + n) (held_s s + sz) (warned s) (queue s ++ [bs])
-                   (plog s) (stopped s))
+                   (plog s) (stopped s) (poof s) (quitf s))
             (PAccepted (b_id b)).
 
   (* SArrive *)
@@ -183,9 +191,14 @@ Section Proc.
     end.
 
   (* for i := processed; processed < len(orderedResults) && orderedResults[i] != nil; i++ *)
+  Definition set_poof (s : pst) : pst :=
+    mkPst (buf s) (pushed s) (tab s) (highest s) (held_n s) (held_s s) (warned s) (queue s) (plog s)
+          (stopped s) true (quitf s).
+
   Fixpoint flush (fuel : nat) (s : pst) (bs : bstate) (i : nat) : pst * bstate :=
     match fuel with
-    | O => (s, bs)
+    | O => ((if Nat.ltb (bs_processed bs) (length (bs_results bs)) && nth i (bs_results bs) false
+             then set_poof s else s), bs)     (* out of fuel with work left: flagged *)
     | S f =>
       if Nat.ltb (bs_processed bs) (length (bs_results bs)) && nth i (bs_results bs) false then
         match nth_error (b_events (bs_batch bs)) i with
@@ -243,7 +256,7 @@ Section Proc.
     (* the inserter leaves the batch it is in through `case <-f.quit: return`; the deferred
        done() still runs.  (Batches queued behind it are dropped; see design-notes/C15.md.) *)
     let s := match queue s with
-             | bs :: _ => pemit s (PAborted (b_id (bs_batch bs)))
+             | bs :: _ => if quitf s then s else pemit s (PAborted (b_id (bs_batch bs)))
              | [] => s
              end in
     let b0 := buf s in
@@ -251,9 +264,22 @@ Section Proc.
     let s1 := set_buf s b1 (pushed s) in
     let s2 := fold_left apply_out (delta (log b0) (log b1)) s1 in
     pemit (mkPst (buf s2) (pushed s2) (tab s2) (highest s2) (held_n s2) (held_s s2) (warned s2)
-                 (queue s2) (plog s2) true) PStopped.
+                 (queue s2) (plog s2) true (poof s2) true) PStopped.
 
-  Inductive pstep := SEnq (b : batch) | SArrive (b : N) (pos : nat) | SConsume | SStop.
+  (* SQuit: Stop() begins (close(quit), Terminate).  From then on the inserter, whenever its `select`
+     takes the quit branch, leaves the batch it is in (or has just taken up): SAbort. *)
+  Definition quit (s : pst) : pst :=
+    if stopped s then s else
+    mkPst (buf s) (pushed s) (tab s) (highest s) (held_n s) (held_s s) (warned s) (queue s) (plog s)
+          (stopped s) (poof s) true.
+  Definition abort (s : pst) : pst :=
+    if stopped s || negb (quitf s) then s else
+    match queue s with
+    | [] => s
+    | bs :: rest => set_queue (pemit s (PAborted (b_id (bs_batch bs)))) rest
+    end.
+
+  Inductive pstep := SEnq (b : batch) | SArrive (b : N) (pos : nat) | SConsume | SStop | SQuit | SAbort.
 
   Definition pstep_run (s : pst) (x : pstep) : pst :=
     match x with
@@ -261,6 +287,8 @@ Section Proc.
     | SArrive b pos => arrive s b pos
     | SConsume => consume s
     | SStop => stop s
+    | SQuit => quit s
+    | SAbort => abort s
     end.
 
   Definition prun (h0 : N) (steps : list pstep) : pst := fold_left pstep_run steps (pst0 h0).
